@@ -19,6 +19,95 @@ def cfg_getter(prog, name):
     return prog.fn_named(name, self_ty="config::Config")
 
 
+def _coded_mask_table(prog, b, atoms, coded):
+    """Truth table of a bool getter over (plain bool field, enum-coded switch) read from its paths: every path's conditions are tests of the bool
+    field or of the coded field's discriminant, every return is a constant or one more such test."""
+    from engine.analyses import sym_paths
+    import itertools
+    F, kt = coded
+    other = [a for a in atoms if a != F]
+    if len(other) != 1:
+        return None
+    other = other[0]
+
+    def atom_of(d, vals, allv):
+        """(atom name, value it has on this edge) or None"""
+        d = strip_refs(d)
+        neg = False
+        while d.k == "un" and d.a[0] == "Not":
+            d = strip_refs(d.a[1])
+            neg = not neg
+        truth = None if vals is None else ((vals != (0,)) if vals != "otherwise" else (0 in allv))
+        if self_path(d) == (other,) and d.k != "call":
+            return other, (None if truth is None else (truth != neg)), neg
+        if d.k == "discr" and self_path(d.a[0]) == (F,):
+            if vals is None:
+                return None
+            ks = set(vals) if vals != "otherwise" else ({0, 1} - set(allv))
+            if len(ks) != 1:
+                return None
+            return F, (next(iter(ks)) == kt), False
+        if d.k == "bin" and d.a[0] in ("Eq", "Ne"):
+            sides = [strip_refs(d.a[1]), strip_refs(d.a[2])]
+            fl = [y for y in sides if y.k == "discr" and self_path(y.a[0]) == (F,)]
+            ot = [y for y in sides if y not in fl]
+            if len(fl) == 1 and len(ot) == 1:
+                k = common._variant_index(prog, ot[0])
+                if k is None:
+                    return None
+                is_kt = (k == kt)
+                if truth is None:
+                    return F, None, (neg != (d.a[0] == "Ne")) != (not is_kt)
+                t2 = truth != neg
+                if d.a[0] == "Ne":
+                    t2 = not t2
+                return F, (t2 if is_kt else (not t2)), False
+        return None
+    try:
+        paths = sym_paths(b, 0, 256)
+    except Exception:
+        return None
+    table = {}
+    for assign in itertools.product([False, True], repeat=2):
+        val = dict(zip(atoms, assign))
+        res = None
+        for path, env, conds in paths:
+            feasible = True
+            for (d, vals, allv, ty, sbb) in conds:
+                a = atom_of(d, vals, allv)
+                if a is None or a[1] is None:
+                    return None
+                if val[a[0]] != a[1]:
+                    feasible = False
+                    break
+            if not feasible:
+                continue
+            ret = env.get(0)
+            ret = strip_refs(ret) if ret is not None else None
+            if ret is None:
+                return None
+            neg_r = False
+            while ret.k == "un" and ret.a[0] == "Not":
+                ret = strip_refs(ret.a[1])
+                neg_r = not neg_r
+            if is_const(ret, "bool"):
+                r = bool(const_val(ret)) != neg_r
+            else:
+                a = atom_of(ret, None, None)
+                if a is not None:
+                    a = (a[0], a[1], a[2] != neg_r)
+                if a is None:
+                    return None
+                r = val[a[0]] != a[2]
+            if res is not None and res != r:
+                return None
+            res = r
+        if res is None:
+            return None
+        table[assign] = res
+    return table
+
+
 def run(ctx):
     prog, chk = ctx.prog, ctx.check
     chk.explanation = (
@@ -104,6 +193,8 @@ def run(ctx):
                         read.add(F_)
     atoms = sorted(read)
     tt = truth_table(b, [(n, (coded_atom if (coded is not None and n == coded[0]) else field_atom(n))) for n in atoms], rewrite=rewrite)
+    if tt is None and coded is not None and len(atoms) == 2 and ansi_field in atoms:
+        tt = _coded_mask_table(prog, b, atoms, coded)
     if tt is None or ansi_field not in atoms or len(atoms) != 2:
         r1.undecidable("mask", "cannot summarise the getter as a boolean function of two fields (reads %s)" % atoms, common.fn_line(prog, g))
     else:
